@@ -553,6 +553,7 @@ class Engine:
         self.var_names = []
         self.format_hook = lambda v, spec: format(repr(v), "")
         self.on_path_end = None
+        self.user = {}
         if mode == "sym":
             self.solver = z3.Solver()
             self.solver.set("timeout", timeout_ms)
